@@ -67,7 +67,8 @@ pub fn extract_field_content(input: &str, tag: &str) -> Option<(String, usize)> 
         + raw_content_len
         + if has_trailing_newline { 1 } else { 0 };
 
-    Some((content.to_string(), consumed))
+    // Lines inside a multi-line field are separated by CRLF on the wire; field parsers expect LF
+    Some((content.replace("\r\n", "\n"), consumed))
 }
 
 /// Find the boundary of the next field
